@@ -86,6 +86,7 @@ structure Frame where
   kont : Kont := .ret
   defers : List (VVal × List VVal) := []
   exiting : Option Exit := none
+  exitSp : Nat := 0        -- operand-stack height at which the deferred calls of an exiting activation run
   ghost : Bool := false    -- the activation has executed `ReturnValue`: the real VM is back in the caller's frame
   deriving Repr, Inhabited
 
@@ -581,13 +582,19 @@ def exec (m : VM) : Except VRes VM :=
         | .returnValue, v :: _ =>
           if isMain then .error (.err "eval")
           else
-            -- the body is over with value `v`; the deferred calls run next (`step`)
-            .ok { m with frames := { fr with exiting := some (.value v), ghost := true } :: outer }
+            -- the body is over with value `v`: `resumeFrame` drops what the activation left on the
+            -- operand stack and `callFunction` pops the result (`return vm.pop(), nil`) BEFORE its
+            -- deferred calls run, so they start at the caller's height (seen in the dispatch trace)
+            .ok { m with stack := m.stack.drop (m.stack.length - fr.spBase),
+                         frames := { fr with exiting := some (.value v), exitSp := fr.spBase, ghost := true } :: outer }
         | _, _ => .error (.err "panic")     -- stack underflow: index out of range in the real VM
 
 /-- an activation whose body is over: run its next deferred call, or leave it (`resumeFrame`:
     the operands it left behind are dropped) and hand the outcome to its continuation -/
-def exitStep (m : VM) (fr : Frame) (outer : List Frame) (ex : Exit) : Except VRes VM :=
+def exitStep (m0 : VM) (fr : Frame) (outer : List Frame) (ex : Exit) : Except VRes VM :=
+  -- `callFunction` pops the result of each deferred call (and a failed one leaves nothing): the
+  -- next one starts at the height the exit began with
+  let m : VM := { m0 with stack := m0.stack.drop (m0.stack.length - fr.exitSp) }
   match fr.defers with
   | (fn, args) :: rest => callValue 8 { m with frames := { fr with defers := rest } :: outer } fn args
   | [] =>
@@ -609,7 +616,7 @@ def unwind (m : VM) (e : Err) : Except VRes VM :=
     match fr.exiting with
     | none =>
       -- the body failed: its deferred calls run with the frame still active
-      .ok { m with raising := none, frames := { fr with exiting := some (.error e) } :: outer }
+      .ok { m with raising := none, frames := { fr with exiting := some (.error e), exitSp := m.stack.length } :: outer }
     | some ex =>
       -- a deferred call of this activation failed: a Go panic abandons the remaining deferred
       -- calls; otherwise the error replaces the outcome, unless that is a panic under way
@@ -633,7 +640,10 @@ def step (m : VM) : Except VRes VM :=
       | some ex => exitStep m fr outer ex
       | none =>
         match exec m with
-        | .ok m' => .ok m'
+        | .ok m' =>
+          -- `vm.stack` has MaxStackDepth = 1024 slots: the push that needs a 1025th panics (index out
+          -- of range, recovered by `Run`/`Call` like any Go panic)
+          if m'.stack.length > 1024 then raise m' { cls := "panic" } else .ok m'
         | .error (.err cls) => raise m { cls := cls }
         | .error r => .error r
 
@@ -649,5 +659,39 @@ def runCodes (fuel : Nat) (globals : List String) (codes : List CodeB) : VRes ×
   let g : Array VVal := (globals.map fun n => if n == "len" || n == "print" then VVal.builtin n else VVal.builtin n).toArray
   let m : VM := { codes := codes, globals := g, frames := [{ codeId := "__main__", pc := 0, base := 0, free := [], spBase := 0 }] }
   runVM fuel m
+
+/-! ### dispatch trace (lockstep tie with vm.eval)
+
+`vm/vm.go`'s `eval` calls the build-tag-guarded hook `verifTrace` once per loop iteration, just
+before it dispatches an instruction.  `dispatchInfo` is the same observation on the model: the
+machine is about to `exec` an instruction of the top frame (it is not unwinding an error, not
+leaving an activation, not at the end of the main code).  `runVMTrace` is `runVM` that also
+records the observation before every step; `runVMTrace_eq` (Props.lean) proves that it is the
+same run.  The harness compares the recorded sequence — code object, slot position, operand
+stack height — with the real VM's, instruction for instruction. -/
+
+def dispatchInfo (m : VM) : Option (String × Nat × Nat) :=
+  match m.raising, m.frames with
+  | none, fr :: _ =>
+    if fr.exiting.isSome then none else
+    match findCode m.codes fr.codeId with
+    | some code => if fr.pc < code.len then some (fr.codeId, fr.pc, m.stack.length) else none
+    | none => none
+  | _, _ => none
+
+def runVMTrace : Nat → VM → Array (String × Nat × Nat) → (VRes × VM) × Array (String × Nat × Nat)
+  | 0, m, t => ((.running, m), t)
+  | f + 1, m, t =>
+    let t' := match dispatchInfo m with
+      | some e => t.push e
+      | none => t
+    match step m with
+    | .ok m' => runVMTrace f m' t'
+    | .error r => ((r, m), t')
+
+def runCodesTrace (fuel : Nat) (globals : List String) (codes : List CodeB) : (VRes × VM) × Array (String × Nat × Nat) :=
+  let g : Array VVal := (globals.map fun n => VVal.builtin n).toArray
+  let m : VM := { codes := codes, globals := g, frames := [{ codeId := "__main__", pc := 0, base := 0, free := [], spBase := 0 }] }
+  runVMTrace fuel m #[]
 
 end Risor.C01
